@@ -31,14 +31,14 @@ TEXT = {
          'The iterative unchecked skipper (unsafe pointer reads, SmallVec stack) is not under contract. The async skipper over the compact reader is not verified against a compact grammar. "Whatever follows is decoded as if the value had never been there" holds for stateless binary readers by the consumption equality; for the compact reader state it is not decided.'),
  'C09': ('All sync and async readers of the three safe protocols, both default skippers and the shared async length-prefixed read are verified with no precondition on buffer content: Verus discharges every panic!, expect/unwrap, index, arithmetic-overflow and dependency panic precondition (Bytes::split_to, Buf::advance, copy_to_slice) in the extracted bodies, every loop has a decreases clause, and every allocation site carries an obligation bounding the request by the bytes available (plus at most 64 KiB for stream readers). Err-side contracts state that an input without a complete value is rejected.',
          'Generated decoders (container preallocation from the wire count in emitted code) are outside reach: emitted text. Stack depth is bounded by the depth argument of the skippers only; generated recursive decoders are not covered.'),
- 'C10': ('decode_varint (dispatch + slow path loop), decode_key, check_wire_type, WireType::try_from, the DecodeContext recursion budget and skip_field (rule D18; terminates with the recursion budget as measure, nesting beyond the limit refused) are verified total by Verus (no panic, bounded consumption); the unsafe unrolled decode_varint_slice is proved by a complete Kani harness on every input of up to 11 bytes; decode_varint on non-contiguous buffers by pb_varint_chain.',
-         'merge_loop (FnMut closure), bytes/string/message/group/map merge, wrappers in types.rs and generated merge_field are not decided.'),
+ 'C10': ('Verus (unit prost, real bodies of pilota/src/prost/encoding.rs): decode_varint (dispatch + slow-path loop, whose shift-and-or accumulation is proved equal to the base-128 value), decode_key, check_wire_type, WireType::try_from and the DecodeContext recursion budget are verified functionally and totally: Ok(v) <=> the input starts with a well-formed varint / key per the protobuf encoding guide, v is its value, exactly its bytes are consumed, no panic on any input. skip_field (rule D18) is verified against a recursive grammar of unknown fields (pskip/pgroup): Ok <=> the input starts with a well-formed field payload (groups closed by the end-group key of their own field number, nested to the recursion budget; a length prefix beyond the input is rejected before advancing), exactly its bytes are consumed, termination with the budget as measure. The unsafe unrolled decode_varint_slice is proved by complete Kani harnesses on every input of up to 11 bytes (bounds, value, length); decode_varint on non-contiguous buffers by pb_varint_chain.',
+         'merge_loop (FnMut closure), bytes/string/message/group/map merge, Message::merge_length_delimited, wrappers in types.rs and generated merge_field are not decided.'),
  'C11': ('Complete Kani harnesses, one per primitive, on the real unchecked writer (BytesMut variant) and reader: exact-size window between guard bytes, symbolic cursor; bytes written == Thrift binary encoding (the spec the checked writer is verified against), reported length == bytes written == cursor advance, nothing outside the window touched; reader values == binary decoding, cursor advanced by the exact size.',
          'LinkedBytes variant with zero-copy insertion, header readers, length-prefixed readers, get_bytes and the iterative skipper are not under a harness.'),
  'C12': ('The async readers of the binary, little-endian binary and compact protocols and the async skipper are extracted (rule D8: async fn -> fn, awaited tokio reads as atomic calls with the delivery contract of tokio) and verified by Verus against the same spec functions and the same contract text as the in-memory readers, so both refine one decoding relation: same value on success, Err exactly when the in-memory reader errs, consumption == length of the decoded value (never reads past it). The async and in-memory skippers are verified against the same value grammar.',
          'The delivery-schedule quantifier is removed by assumption A7 (tokio AsyncReadExt returns the next bytes in order regardless of chunking/Pending), not proved. Generated decode_async is not covered (emitted text).'),
- 'C18': ('The scalar harnesses of C05 merge into an arbitrary pre-existing value: the result is the decoded value for every old value (last occurrence wins), for all 13 scalar kinds.',
-         'Repeated, map, oneof, embedded-message and unknown-field semantics, and Message::merge, are not decided.'),
+ 'C18': ('Kani: the scalar harnesses of C05 merge into an arbitrary pre-existing value: the result is the decoded value for every old value (last occurrence wins), for all 13 scalar kinds. Verus (unit prost): skip_field, the function every generated merge_field hands an undeclared field to, consumes exactly the bytes of that field for every wire type including nested groups (grammar pskip/pgroup), so what follows an unknown field is decoded as if it were not there.',
+         'Repeated accumulation only by a bounded harness (thorough tier). Map, oneof and embedded-message merge semantics, Message::merge, and the dispatch of unknown tags to skip_field inside generated merge_field (emitted text) are not decided.'),
 }
 
 def main():
